@@ -318,7 +318,7 @@ func descD(v ssa.Value, d int) string {
 			if e == v {
 				continue
 			}
-			parts = append(parts, descD(e, d+3))
+			parts = append(parts, descD(e, d+5))
 		}
 		return "phi(" + strings.Join(parts, "|") + ")"
 	case *ssa.IndexAddr:
